@@ -165,7 +165,19 @@ impl Scenario for C19 {
                     let payer = 2 + (op.a as usize % 2);
                     let pend_in: Vec<UtxoKey> = vec![];
                     if let Some((t, _)) = c.payment(payer, WK, op.b as usize, (op.b * 37) % 500, 0, &pend_in) {
-                        ok = produce(&mut c, &mut wn, &mut r, vec![t], &mut rng);
+                        let mut txs = vec![t];
+                        if op.a % 3 == 0 {
+                            // the block also carries an ordinary transaction whose (signed, unvalidated) header
+                            // field txs_replacements is not 1: ledger ordinals do not care, nor may the wallet
+                            let tag = c.tag();
+                            let ts = c.tip_rec().ts + tag;
+                            let mut f = make_tx(&c.keys[3].clone(), &[], &[(c.keys[3].pk, 0)], ts, &tag.to_le_bytes());
+                            f.txs_replacements = 2 + (op.b % 3) as u32;
+                            f.sign(&c.keys[3].sk);
+                            txs.insert(0, f);
+                            r.fault("ordinary_tx_with_replacement_count", 1);
+                        }
+                        ok = produce(&mut c, &mut wn, &mut r, txs, &mut rng);
                         receives += 1;
                     }
                 }
